@@ -799,6 +799,9 @@ class JinjaTemplater(PythonTemplater):
             # Capture a line number if we can.
             if isinstance(err, TemplateSyntaxError):
                 templater_error.line_no = err.lineno
+                # Jinja only gives us a line, so point at its first column
+                # (column 0 doesn't exist in the file).
+                templater_error.line_pos = 1
             raise templater_error
 
         undefined_variables = self._init_undefined_tracking(
